@@ -5,7 +5,7 @@ VERIF = os.path.dirname(os.path.dirname(os.path.abspath(__file__)))
 sys.path.insert(0, os.path.join(VERIF, "tools"))
 from properties import PROPS
 ids = [json.loads(l)["id"] for l in open(os.path.join(VERIF, "properties.jsonl"))]
-hook_commits = ["07f6233", "09b0d6a", "a5029df", "add6277"]
+hook_commits = ["07f6233", "09b0d6a", "a5029df", "add6277", "9467f4d"]
 setup = ("mkdir -p build && (cd tools/gengallina && GOFLAGS=-mod=mod GOPROXY=off GOTOOLCHAIN=local go build -o ../../build/gengallina .) && "
          "build/gengallina /repo > coq/Gen/Generated.v && (cd coq && coq_makefile -f _CoqProject -o Makefile && make -j16) && "
          "cp /repo/go.sum harness/go.sum && (cd harness && GOFLAGS=-mod=mod GOPROXY=off go build -tags verif -o ../build/harness .)")
